@@ -13,6 +13,7 @@ package main
 import (
 	"fmt"
 	"os"
+	"runtime/pprof"
 	"sort"
 	"strings"
 	"sync"
@@ -105,7 +106,14 @@ type observed struct {
 	opt        *dns.OPT
 	ecs        []*dns.EDNS0_SUBNET
 	answers    []string
-	canon      string
+	msg        *dns.Msg // the message that was judged (rendered only when needed)
+}
+
+func (o *observed) canon() string {
+	if o.panicked != nil {
+		return fmt.Sprintf("<PANIC %v>", o.panicked)
+	}
+	return dnsfix.Canon(o.msg)
 }
 
 func observe(res dnsfix.Result) observed {
@@ -121,7 +129,7 @@ func observe(res dnsfix.Result) observed {
 	b, err := res.Msgs[0].Pack()
 	if err != nil {
 		o.packErr = err
-		o.canon = dnsfix.Canon(res.Msgs[0])
+		o.msg = res.Msgs[0]
 		return o
 	}
 	m := new(dns.Msg)
@@ -148,7 +156,7 @@ func observe(res dnsfix.Result) observed {
 		}
 	}
 	sort.Strings(o.answers)
-	o.canon = dnsfix.Canon(m)
+	o.msg = m
 	return o
 }
 
@@ -363,9 +371,9 @@ func runUnit(r *vlib.Run, path, text string, u unit, queries []*query, wires [][
 				if f == nil {
 					f = &finding{group: g, cfgOrd: u.cfgOrd, path: p, qOrd: q.ord,
 						fp:     fmt.Sprintf("ecs/%s/%s/%s/%s/%s@%s", u.backend, v.kind, u.cfg.id, classNames[q.class], q.id(), p),
-						detail: fmt.Sprintf("%s\nconfiguration %s on %s, path %s, query %s %s from %s with %s\nmodel: %s\nresponse: %s", v.text, u.cfg.id, u.backend, p, q.name, dns.TypeToString[q.qtype], q.resolver, q.formID(), e.decider, o.canon),
+						detail: fmt.Sprintf("%s\nconfiguration %s on %s, path %s, query %s %s from %s with %s\nmodel: %s\nresponse: %s", v.text, u.cfg.id, u.backend, p, q.name, dns.TypeToString[q.qtype], q.resolver, q.formID(), e.decider, o.canon()),
 						replay: map[string]interface{}{"backend": u.backend.String(), "config": u.cfg.id, "data": text, "cache": u.cache, "path": p,
-							"query": q.id(), "query_wire_hex": fmt.Sprintf("%x", wires[qi]), "resolver": q.resolver, "kind": v.kind, "expected": fmt.Sprintf("%+v", e), "response": o.canon}}
+							"query": q.id(), "query_wire_hex": fmt.Sprintf("%x", wires[qi]), "resolver": q.resolver, "kind": v.kind, "expected": fmt.Sprintf("%+v", e), "response": o.canon()}}
 					groups[g] = f
 					order = append(order, g)
 				}
@@ -376,7 +384,7 @@ func runUnit(r *vlib.Run, path, text string, u unit, queries []*query, wires [][
 			}
 			if c.cases&(c.cases-1) == 0 && !u.cache && u.backend == dnsfix.CDB && u.cfg.id == "8nested+def-M" {
 				r.Sample(map[string]string{"config": u.cfg.id, "backend": u.backend.String(), "path": p, "query": q.id(), "model": e.decider,
-					"want_scope": fmt.Sprint(e.scope), "response": o.canon})
+					"want_scope": fmt.Sprint(e.scope), "response": o.canon()})
 			}
 		}
 	}
@@ -412,6 +420,11 @@ func main() {
 		}
 	}
 
+	if pf := os.Getenv("C10_PROF"); pf != "" { // debugging aid
+		f, _ := os.Create(pf)
+		pprof.StartCPUProfile(f)
+		defer pprof.StopCPUProfile()
+	}
 	configs := buildConfigs()
 	if only := os.Getenv("C10_CONFIG"); only != "" { // debugging aid
 		var f []config
@@ -526,7 +539,7 @@ func main() {
 	if cnt.unexpectedRcode > 0 {
 		r.Note("%d cases were answered with an rcode other than the one the response class was built for; OPT/ECS were judged all the same", cnt.unexpectedRcode)
 	}
-	r.Set("rule", "configurations = 13 client-subnet map contents (no '8' map; '8' map with no subnets / only 0.0.0.0/0 / only ::/0 / both / host /32+/128 / nested 10/8>10.1/16>10.1.1/24>10.1.1.0/25 and 2001:db8::/32>/48>/56>/64, per family and combined, with defaults, with hosts, with the other family's default only) x resolver map absent/present; each compiled by the real compilers to CDB, RocksDB v1 keys, RocksDB v2 keys and opened in the real handler with the cache off and on. queries = {no EDNS, EDNS0 without options, cookie, option 65001, ECS, ECS+cookie, cookie+ECS} x ECS variants (family 1: source lengths {0,1,8,9,16,24,25,32}, thorough 0..32; family 2: {0,1,32,48,56,64,128}, thorough 0..128; 6/7 base addresses on and off the declared subnets, masked to the source length, scope 0) x classes {positive, NODATA, NXDOMAIN, referral, REFUSED, BADVERS (EDNS version 1)} x {zone whose names select the client-subnet map, zone whose names do not} x 3 resolver addresses (in the resolver map v4, outside it, in it v6). Every query is packed/unpacked, served by FBDNSDB.ServeDNS (max answers 16 so that no random selection happens), the response packed/unpacked and judged: OPT iff query had one; exactly one ECS iff query had one, family/source/address equal; scope = length of the longest declared subnet of the client's family containing the client network and not longer than it (brute force), 24/48 if the name has a map and nothing matches, 0 if the name has no '8' map; positive answers must be the untagged A plus the A of the deciding location (ECS match, else resolver match). With the cache on every query is asked twice in a row (second_asks_served_from_cache counts DNS_cache.hit increments). states = (database, cache mode, query, ask) cases; transitions = ServeDNS calls; evaluations = judged responses; nontrivial = cases where the model expects a scope or location decided by a map. Reported: one minimal (first in order no-cache < first ask < second ask, then query order) case per backend/kind/configuration/class/wanted-got shape.")
+	r.Set("rule", "configurations = 13 client-subnet map contents (no '8' map; '8' map with no subnets / only 0.0.0.0/0 / only ::/0 / both / host /32+/128 / nested 10/8>10.1/16>10.1.1/24>10.1.1.0/25 and 2001:db8::/32>/48>/56>/64, per family and combined, with defaults, with hosts, with the other family's default only) x resolver map absent/present; each compiled by the real compilers to CDB, RocksDB v1 keys, RocksDB v2 keys and opened in the real handler with the cache off and on. queries = {no EDNS, EDNS0 without options, cookie, option 65001, ECS, ECS+cookie, cookie+ECS} x ECS variants (family 1: source lengths {0,1,8,9,16,24,25,32}, thorough 0..32; family 2: {0,1,32,48,56,64,128}, thorough 0..128; 6/7 base addresses on and off the declared subnets, masked to the source length, scope 0) x classes {positive, NODATA, NXDOMAIN, referral, REFUSED, BADVERS (EDNS version 1)} x {zone whose names select the client-subnet map, zone whose names do not} x 3 resolver addresses (in the resolver map v4, outside it, in it v6; the quick tier uses all three only for positive answers, the only class where the resolver is observable, and asks BADVERS only in the mapped zone). Every query is packed/unpacked, served by FBDNSDB.ServeDNS (max answers 16 so that no random selection happens), the response packed/unpacked and judged: OPT iff query had one; exactly one ECS iff query had one, family/source/address equal; scope = length of the longest declared subnet of the client's family containing the client network and not longer than it (brute force), 24/48 if the name has a map and nothing matches, 0 if the name has no '8' map; positive answers must be the untagged A plus the A of the deciding location (ECS match, else resolver match). With the cache on every query is asked twice in a row (second_asks_served_from_cache counts DNS_cache.hit increments). states = (database, cache mode, query, ask) cases; transitions = ServeDNS calls; evaluations = judged responses; nontrivial = cases where the model expects a scope or location decided by a map. Reported: one minimal (first in order no-cache < first ask < second ask, then query order) case per backend/kind/configuration/class/wanted-got shape.")
 	r.Assume = []string{
 		"IPv6-family ECS addresses inside ::ffff:0:0/96 are not generated (the statement does not say which family's subnets they match)",
 		"query scope is 0 and addresses are masked to the source length (RFC 7871 well-formed queries)",
@@ -535,5 +548,6 @@ func main() {
 		"BADVERS replies are judged for OPT and ECS presence/identity only (no lookup happens, so no scope is defined)",
 		"only the first ECS option of a query is considered (queries carry at most one)",
 	}
+	pprof.StopCPUProfile()
 	r.Finish()
 }
